@@ -2,21 +2,46 @@ package props
 
 import (
 	"bytes"
+	"context"
 	"errors"
 	"fmt"
 	"io"
+	"io/fs"
 	"strings"
+	"syscall"
 	"testing"
 
 	"github.com/ipfs/go-cid"
 	"github.com/ipfs/go-unixfsnode/data/builder"
 	"github.com/ipld/go-ipld-prime"
+	"github.com/ipld/go-ipld-prime/traversal"
 	"github.com/multiformats/go-multihash"
 
 	"verifharness/mon"
 	"verifharness/oracle"
 	"verifharness/store"
 )
+
+// extraErrKinds are further load-error kinds (kind >= 2): errors that wrappers are
+// tempted to special-case. Bare io.EOF is deliberately not among them.
+var extraErrKinds = []error{
+	fmt.Errorf("verif store: truncated block: %w", io.ErrUnexpectedEOF),
+	io.ErrUnexpectedEOF,
+	&fs.PathError{Op: "open", Path: "/blocks/x", Err: syscall.EEXIST},
+	&fs.PathError{Op: "open", Path: "/blocks/x", Err: syscall.ENOENT},
+	context.Canceled,
+	traversal.SkipMe{},
+}
+
+func errOfKind(kind int) error {
+	switch kind {
+	case 0:
+		return nil // store default: ErrNotFound{cid}
+	case 1:
+		return store.ErrInjected
+	}
+	return extraErrKinds[(kind-2)%len(extraErrKinds)]
+}
 
 func isInjected(err error, kind int) bool {
 	if err == nil {
@@ -26,7 +51,8 @@ func isInjected(err error, kind int) bool {
 		var nf store.ErrNotFound
 		return errors.As(err, &nf) || strings.Contains(err.Error(), "verif store: block not found")
 	}
-	return errors.Is(err, store.ErrInjected) || strings.Contains(err.Error(), store.ErrInjected.Error())
+	want := errOfKind(kind)
+	return errors.Is(err, want) || err == want || strings.Contains(err.Error(), want.Error())
 }
 
 func faultPos(i, n int) string {
@@ -113,12 +139,10 @@ func checkFileFaults(c *mon.Case, f *fileFixture) {
 	}
 	// (1) every single block unavailable, both error kinds
 	for i, b := range blocks {
-		for kind := 0; kind < 2; kind++ {
+		for _, kind := range []int{0, 1, 2 + i%len(extraErrKinds)} {
 			st.ClearFaults()
 			st.Absent = map[string]bool{b.KeyString(): true}
-			if kind == 1 {
-				st.AbsentErr = store.ErrInjected
-			}
+			st.AbsentErr = errOfKind(kind)
 			st.ResetLog()
 			rs := open()
 			if rs == nil {
@@ -132,7 +156,7 @@ func checkFileFaults(c *mon.Case, f *fileFixture) {
 			c.Count("faults_injected", 1)
 			start, _ := firstSpanStart(spans, st.Absent)
 			judge(fmt.Sprintf("sequential read with block %d/%d unavailable (error kind %d)", i, len(blocks), kind), kind, 0, got, rerr, start-0, true)
-			c.Sig(fmt.Sprintf("file|%s|single|%s|kind%d", strings.Split(f.Name, "-")[0], faultPos(i, len(blocks)), kind), true)
+			c.Sig(fmt.Sprintf("file|%s|single|%s|kind%d", strings.Split(f.Name, "-")[0], faultPos(i, len(blocks)), min(kind, 2)), true)
 		}
 	}
 	// (2) random subsets
@@ -178,9 +202,11 @@ func checkFileFaults(c *mon.Case, f *fileFixture) {
 		for k := 1; k <= maxLoads; k++ {
 			st.ClearFaults()
 			st.FailReadAt = k
-			kind := k % 2
+			kind := k % (2 + len(extraErrKinds))
 			if kind == 0 {
 				st.FailErr = store.ErrNotFound{Cid: f.Root}
+			} else {
+				st.FailErr = errOfKind(kind)
 			}
 			st.ResetLog()
 			rs := open()
@@ -303,9 +329,7 @@ func checkDirFaults(c *mon.Case, d dirCase) {
 	runPlan := func(what string, missing map[string]bool, kind int) {
 		st.ClearFaults()
 		st.Absent = missing
-		if kind == 1 {
-			st.AbsentErr = store.ErrInjected
-		}
+		st.AbsentErr = errOfKind(kind)
 		// lookups on a fresh node
 		node, err := reify(ls, raw)
 		if err != nil {
@@ -406,8 +430,8 @@ func checkDirFaults(c *mon.Case, d dirCase) {
 		})
 	}
 	for i, s := range shards[1:] {
-		for kind := 0; kind < 2; kind++ {
-			if kind == 1 && len(shards) > 20 && i%4 != 0 {
+		for _, kind := range []int{0, 1, 2 + i%len(extraErrKinds)} {
+			if kind >= 1 && len(shards) > 20 && i%4 != 0 {
 				continue
 			}
 			c.Count("faults_injected", 1)
